@@ -87,13 +87,23 @@ class HeaderExtensionsMap:
             elif x_id == self.__ids.rtp_stream_id:
                 values.rtp_stream_id = x_value.decode("ascii")
             elif x_id == self.__ids.abs_send_time:
+                if len(x_value) != 3:
+                    raise ValueError("RTP abs-send-time extension length is invalid")
                 values.abs_send_time = unpack("!L", b"\00" + x_value)[0]
             elif x_id == self.__ids.transmission_offset:
+                if len(x_value) != 3:
+                    raise ValueError("RTP toffset extension length is invalid")
                 values.transmission_offset = unpack("!l", x_value + b"\00")[0] >> 8
             elif x_id == self.__ids.audio_level:
+                if len(x_value) != 1:
+                    raise ValueError("RTP audio level extension length is invalid")
                 vad_level = unpack("!B", x_value)[0]
                 values.audio_level = (vad_level & 0x80 == 0x80, vad_level & 0x7F)
             elif x_id == self.__ids.transport_sequence_number:
+                if len(x_value) != 2:
+                    raise ValueError(
+                        "RTP transport sequence number extension length is invalid"
+                    )
                 values.transport_sequence_number = unpack("!H", x_value)[0]
         return values
 
